@@ -24,7 +24,12 @@ open SJ.Proofs.CanonM (specCfg)
 theorem term_of_sep {rest : Bytes} (h : SepOK rest) : Term rest := by
   rcases h with rfl | ⟨c, tl, rfl, hc⟩
   · exact .inl rfl
-  · rcases hc with rfl | rfl | rfl | rfl <;> exact .inr ⟨_, _, rfl, by decide, by decide, by decide⟩
+  · rcases hc with rfl | rfl | rfl | rfl | hw
+    · exact .inr ⟨_, _, rfl, by decide, by decide, by decide⟩
+    · exact .inr ⟨_, _, rfl, by decide, by decide, by decide⟩
+    · exact .inr ⟨_, _, rfl, by decide, by decide, by decide⟩
+    · exact .inr ⟨_, _, rfl, by decide, by decide, by decide⟩
+    · rcases isWs_cases hw with rfl | rfl | rfl | rfl <;> exact .inr ⟨_, _, rfl, by decide, by decide, by decide⟩
 
 /-- the conversion of the typed entry points on the scanned literal is the number of the denotation (`Spec.Canon.numOf`) -/
 theorem parserNumber_lit (env : Env) (hap : env.cfg.ap = false) (p : NumParts) :
